@@ -42,11 +42,11 @@ import (
 // the block's base time (the fake clock at reset).
 //
 //	C07.reset full memSize fileEnabled enabled ivlMs nRules rule* nHosts host* nClients {id name ignore}*   => m c r
-//	C07.add id dt qname cid ip reason isFiltered variant      => rt m c r
+//	C07.add id dt qname cid ip ipAnon reason isFiltered variant   => rt m c r
 //	C07.shutdown | C07.rotate | C07.clear                      => m c r
 //	C07.rotcheck dt                                            => m c r
 //	C07.restart memSize fileEnabled enabled                    => m c r
-//	C07.putconf enabled ivlMs nRules rule* nHosts host*        => code m c r
+//	C07.putconf enabled anonymize ivlMs nRules rule* nHosts host* => code m c r
 //	C07.clients n {id name ignore}*                            => m c r
 //	C07.search scan olderKind olderVal limit offset search asciiRet asciiErr status   => code items oldest
 //
@@ -54,8 +54,10 @@ import (
 // first ("-" empty; "#n" counts only when full=0).  nHosts host*: the hosts of
 // the block's pool for which the ignore engine built from the rules answers
 // true (library oracle).  asciiRet/asciiErr: idna.ToASCII(strings.ToLower(term))
-// (library oracle).  items: ids newest first, "id!" when the returned JSON
-// differs from what was recorded.
+// (library oracle).  ipAnon: the text of the client address with the last 2
+// (IPv4) / 10 (IPv6) bytes zeroed, computed by the generator.  items:
+// "id@client" newest first (client = hex of the reported "client"), "id!@client"
+// when the rest of the returned JSON differs from what was recorded.
 
 type c07Ctx struct {
 	l       *queryLog
@@ -109,15 +111,20 @@ func (c *c07Ctx) findClient(ids []string) (cl *Client, err error) {
 	return nil, nil
 }
 
-func (c *c07Ctx) newLog(memSize uint, fileEnabled, enabled bool, ivl time.Duration) {
+func (c *c07Ctx) newLog(memSize uint, fileEnabled, enabled, anonymize bool, ivl time.Duration) {
 	eng, err := aghnet.NewIgnoreEngine(c.rules)
 	if err != nil {
 		panic("ignore engine: " + err.Error())
 	}
+	var anon aghnet.IPMutFunc
+	if anonymize {
+		anon = AnonymizeIP
+	}
 	l, err := newQueryLog(Config{
-		Logger:         slogutil.NewDiscardLogger(),
-		Ignored:        eng,
-		Anonymizer:     aghnet.NewIPMut(nil),
+		Logger:            slogutil.NewDiscardLogger(),
+		Ignored:           eng,
+		Anonymizer:        aghnet.NewIPMut(anon),
+		AnonymizeClientIP: anonymize,
 		ConfigModified: func() {},
 		FindClient:     c.findClient,
 		BaseDir:        c.dir,
@@ -329,11 +336,12 @@ func c07Norm(qname string) string {
 }
 
 // c07Canon is the canonical text of one entry of the API answer, without
-// client_info (which depends on the client registry at search time).
+// client_info (which depends on the client registry at search time) and client
+// (which depends on the anonymisation setting at search time; reported apart).
 func c07Canon(m map[string]any) string {
 	cp := make(map[string]any, len(m))
 	for k, v := range m {
-		if k != "client_info" {
+		if k != "client_info" && k != "client" {
 			cp[k] = v
 		}
 	}
@@ -361,7 +369,7 @@ func c07ViaJSON(v any) (m map[string]any) {
 func (c *c07Ctx) add(f []string) []string {
 	id, dt := vutil.Atoi(f[1]), vutil.Atoi(f[2])
 	qname, cid, ipText := vutil.Unhex(f[3]), vutil.Unhex(f[4]), vutil.Unhex(f[5])
-	reason, isF, variant := vutil.Atoi(f[6]), vutil.UnB(f[7]), vutil.Atoi(f[8])
+	reason, isF, variant := vutil.Atoi(f[7]), vutil.UnB(f[8]), vutil.Atoi(f[9])
 	time.Sleep(time.Duration(dt))
 	ctx := context.Background()
 	l := c.l
@@ -424,7 +432,7 @@ func (c *c07Ctx) entryOK(id int, m map[string]any) bool {
 	exp := c.exp[id]
 	q, _ := m["question"].(map[string]any)
 	str := func(v any) string { s, _ := v.(string); return s }
-	if q == nil || str(q["name"]) != exp["name"] || str(m["client"]) != exp["client"] ||
+	if q == nil || str(q["name"]) != exp["name"] ||
 		str(m["client_id"]) != exp["client_id"] || str(m["reason"]) != exp["reason"] ||
 		str(m["upstream"]) != exp["upstream"] || str(m["client_proto"]) != exp["proto"] {
 		return false
@@ -443,7 +451,13 @@ func (c *c07Ctx) entryOK(id int, m map[string]any) bool {
 	if strings.Join(rs, "|") != exp["rules"] {
 		return false
 	}
-	// client_info is the client the registry has NOW for (ClientID, IP).
+	// client_info is the client the registry has NOW for (ClientID, IP); it is
+	// left out when the reported address is masked.
+	if str(m["client"]) != exp["ip"] {
+		_, has := m["client_info"]
+
+		return !has
+	}
 	var ids []string
 	if exp["client_id"] != "" {
 		ids = append(ids, exp["client_id"])
@@ -542,7 +556,8 @@ func (c *c07Ctx) search(f []string) []string {
 		if !c.entryOK(id, m) {
 			it += "!"
 		}
-		items = append(items, it)
+		cl, _ := m["client"].(string)
+		items = append(items, it+"@"+vutil.Hex(cl))
 	}
 	oldest := "-"
 	c.lastOldest = ""
@@ -605,7 +620,7 @@ func c07Run(f []string) []string {
 		c.rules, i = c07TakeList(f, 6)
 		_, i = c07TakeList(f, i)
 		c.clients, _ = c07TakeClients(f, i)
-		c.newLog(uint(vutil.Atoi(f[2])), vutil.UnB(f[3]), vutil.UnB(f[4]), time.Duration(vutil.Atoi(f[5]))*time.Millisecond)
+		c.newLog(uint(vutil.Atoi(f[2])), vutil.UnB(f[3]), vutil.UnB(f[4]), false, time.Duration(vutil.Atoi(f[5]))*time.Millisecond)
 		c07 = c
 
 		return c.dump()
@@ -642,23 +657,24 @@ func c07Run(f []string) []string {
 		_ = l.Shutdown(ctx)
 		var ivl time.Duration
 		var eng *aghnet.IgnoreEngine
+		var anon bool
 		func() {
 			l.confMu.RLock()
 			defer l.confMu.RUnlock()
-			ivl, eng = l.conf.RotationIvl, l.conf.Ignored
+			ivl, eng, anon = l.conf.RotationIvl, l.conf.Ignored, l.conf.AnonymizeClientIP
 		}()
 		c.rules = eng.Values()
-		c.newLog(uint(vutil.Atoi(f[1])), vutil.UnB(f[2]), vutil.UnB(f[3]), ivl)
+		c.newLog(uint(vutil.Atoi(f[1])), vutil.UnB(f[2]), vutil.UnB(f[3]), anon, ivl)
 
 		return c.dump()
 	case "C07.putconf":
-		rulesList, _ := c07TakeList(f, 3)
+		rulesList, _ := c07TakeList(f, 4)
 		if rulesList == nil {
 			rulesList = []string{}
 		}
 		body, err := json.Marshal(map[string]any{
-			"ignored": rulesList, "interval": vutil.Atoi(f[2]),
-			"enabled": vutil.UnB(f[1]), "anonymize_client_ip": false,
+			"ignored": rulesList, "interval": vutil.Atoi(f[3]),
+			"enabled": vutil.UnB(f[1]), "anonymize_client_ip": vutil.UnB(f[2]),
 		})
 		if err != nil {
 			panic(err)
@@ -718,6 +734,11 @@ type c07Gen struct {
 	added   []c07Shadow
 	memSize int
 	fileOn  bool
+	// current configuration as set through reset / putconf
+	enabled  bool
+	anon     bool
+	ivlMs    int
+	curRules []string
 }
 
 func c07Flip(r *rand.Rand, s string) string {
@@ -822,6 +843,19 @@ func (g *c07Gen) rules() (rs []string) {
 	return rs
 }
 
+// c07Anon is the text of the address with the last 2 (IPv4) or 10 (IPv6) bytes
+// zeroed: what an anonymised answer must show.
+func c07Anon(ipText string) string {
+	ip := net.ParseIP(ipText)
+	if ip4 := ip.To4(); ip4 != nil {
+		return net.IPv4(ip4[0], ip4[1], 0, 0).String()
+	}
+	out := make(net.IP, net.IPv6len)
+	copy(out[:6], ip[:6])
+
+	return out.String()
+}
+
 func (g *c07Gen) add() {
 	r := g.r
 	g.nextID++
@@ -851,7 +885,7 @@ func (g *c07Gen) add() {
 	}
 	g.added = append(g.added, c07Shadow{id: g.nextID, ts: g.clock, host: c07Norm(qn), cid: cid, ip: ip})
 	g.emit("C07.add", strconv.Itoa(g.nextID), strconv.FormatInt(dt, 10), vutil.Hex(qn), vutil.Hex(cid), vutil.Hex(ip),
-		strconv.Itoa(reason), vutil.B(isF), strconv.Itoa(r.IntN(1<<22)))
+		vutil.Hex(c07Anon(ip)), strconv.Itoa(reason), vutil.B(isF), strconv.Itoa(r.IntN(1<<22)))
 }
 
 var c07BadNums = []string{"-1", "-10", "9223372036854775807", "9223372036854775808", "9223372036854775802",
@@ -1035,7 +1069,8 @@ func (g *c07Gen) block() {
 	enabled := r.IntN(12) != 0
 	ivlMs := vutil.Pick(r, []int{3600_000, 3600_000, 2 * 3600_000, 6 * 3600_000, 24 * 3600_000})
 	f := []string{"1", strconv.Itoa(g.memSize), vutil.B(g.fileOn), vutil.B(enabled), strconv.Itoa(ivlMs)}
-	f = append(f, g.ignoredFields(g.rules())...)
+	g.enabled, g.anon, g.ivlMs, g.curRules = enabled, false, ivlMs, g.rules()
+	f = append(f, g.ignoredFields(g.curRules)...)
 	f = append(f, g.clientFields()...)
 	g.emit(append([]string{"C07.reset"}, f...)...)
 
@@ -1069,19 +1104,18 @@ func (g *c07Gen) block() {
 		case k < 80:
 			g.memSize = vutil.Pick(r, []int{0, 1, 2, 3, 5, 8, 100})
 			g.fileOn = r.IntN(6) != 0
-			g.emit("C07.restart", strconv.Itoa(g.memSize), vutil.B(g.fileOn), vutil.B(r.IntN(10) != 0))
+			g.enabled = r.IntN(10) != 0
+			g.emit("C07.restart", strconv.Itoa(g.memSize), vutil.B(g.fileOn), vutil.B(g.enabled))
 		case k < 83:
 			iv := vutil.Pick(r, []int{3600_000, 24 * 3600_000, 3599_999, 365 * 86400_000, 365*86400_000 + 1, 0})
-			if iv >= 3600_000 && iv <= 365*86400_000 {
-				ivlMs = iv
-			}
-			pf := []string{vutil.B(r.IntN(6) != 0), strconv.Itoa(iv)}
-			pf = append(pf, g.ignoredFields(g.rules())...)
-			g.emit(append([]string{"C07.putconf"}, pf...)...)
+			g.putconf(r.IntN(6) != 0, r.IntN(3) == 0, iv, g.rules())
+			ivlMs = g.ivlMs
 		case k < 86:
 			g.emit(append([]string{"C07.clients"}, g.clientFields()...)...)
-		case k < 90:
+		case k < 89:
 			g.pageChain()
+		case k < 92:
+			g.anonScenario()
 		default:
 			g.search(vutil.Pick(r, []string{"", "any", "any", "cursor"}))
 		}
@@ -1094,6 +1128,53 @@ func (g *c07Gen) block() {
 	if r.IntN(2) == 0 {
 		g.pageChain()
 	}
+	if r.IntN(2) == 0 {
+		g.anonScenario()
+	}
+}
+
+// putconf emits a PUT of the configuration and tracks what is in force.
+func (g *c07Gen) putconf(enabled, anon bool, iv int, rulesList []string) {
+	pf := []string{vutil.B(enabled), vutil.B(anon), strconv.Itoa(iv)}
+	pf = append(pf, g.ignoredFields(rulesList)...)
+	g.emit(append([]string{"C07.putconf"}, pf...)...)
+	if iv >= 3600_000 && iv <= 365*86400_000 {
+		g.enabled, g.anon, g.ivlMs, g.curRules = enabled, anon, iv, rulesList
+	}
+}
+
+// anonScenario switches anonymisation on, reads the log through the real
+// handler, switches it off again and reads before and after a flush / restart:
+// every record must come back with the client it was recorded with, masked
+// only while anonymisation is on.
+func (g *c07Gen) anonScenario() {
+	r := g.r
+	read := func() {
+		g.emitSearch(0, "none", "-", strconv.Itoa(20+r.IntN(30)), "", "", "")
+		if len(g.added) > 0 && r.IntN(2) == 0 {
+			ip := vutil.Pick(r, g.added).ip
+			g.emitSearch(0, "none", "-", "", strconv.Itoa(r.IntN(3)), ip[:1+r.IntN(len(ip))], "")
+		}
+	}
+	if r.IntN(3) == 0 {
+		g.add()
+	}
+	read()
+	g.putconf(g.enabled, !g.anon, g.ivlMs, g.curRules)
+	read()
+	if r.IntN(2) == 0 {
+		g.add()
+		read()
+	}
+	g.putconf(g.enabled, !g.anon, g.ivlMs, g.curRules)
+	read()
+	switch r.IntN(3) {
+	case 0:
+		g.emit("C07.shutdown")
+	case 1:
+		g.emit("C07.restart", strconv.Itoa(g.memSize), vutil.B(g.fileOn), vutil.B(g.enabled))
+	}
+	read()
 }
 
 // bigBlock crosses the real 50 000-record scan budget of the API.
@@ -1125,7 +1206,7 @@ func (g *c07Gen) bigBlock() {
 			host = g.hosts[1]
 		}
 		g.emit("C07.add", strconv.Itoa(g.nextID), strconv.FormatInt(dt, 10), vutil.Hex(host+"."), vutil.Hex(cid),
-			vutil.Hex(g.ips[i%2]), strconv.Itoa(reason), vutil.B(isF), strconv.Itoa(i%7))
+			vutil.Hex(g.ips[i%2]), vutil.Hex(c07Anon(g.ips[i%2])), strconv.Itoa(reason), vutil.B(isF), strconv.Itoa(i%7))
 		if i == 30000 {
 			g.emit("C07.rotate")
 		}
